@@ -172,7 +172,7 @@ def rule_r1(chk):
     chk.rule("C02-R1",
              "for every Atom rule method and operand mode, new_diff == sum over operands of "
              "(formal derivative of the method's own new_value) * operand diff; Atom.diff applies "
-             "the log-variable chain factor; maximum/minimum checked per region", floor=22)
+             "the log-variable chain factor; maximum/minimum checked per region", floor=22, shape_independent=True)
     c, meths, aliases = _atom_methods(m)
     chk.saw(m, "Atom")
     v, d, ov, od, cc = (sym(x) for x in ("v", "d", "ov", "od", "c"))
@@ -184,15 +184,23 @@ def rule_r1(chk):
         raise AnalysisError("anchor vanished: Atom.diff / Atom.value properties")
     dprop = meths["diff"]
     rets = [n for n in walk_no_nested(dprop) if isinstance(n, ast.Return)]
-    ok = False
-    detail = "Atom.diff is not `_diff if not _logly else _diff*value`"
+    ok = None
+    detail = "shape of Atom.diff not recognised (expected a two-way choice on self._logly)"
+    cond = None
+    body_ = strip_docstring(dprop.body)
     if len(rets) == 1 and isinstance(rets[0].value, ast.IfExp):
-        ie = rets[0].value
-        t = ie.test
+        cond = (rets[0].value.test, rets[0].value.body, rets[0].value.orelse)
+    elif len(rets) == 2 and len(body_) in (1, 2) and isinstance(body_[0], ast.If) and len(body_[0].body) == 1 and isinstance(body_[0].body[0], ast.Return):
+        other = body_[0].orelse[0] if body_[0].orelse else (body_[1] if len(body_) == 2 else None)
+        if isinstance(other, ast.Return):
+            cond = (body_[0].test, body_[0].body[0].value, other.value)
+    if cond is not None:
+        t, e_body, e_orelse = cond
         negated = isinstance(t, ast.UnaryOp) and isinstance(t.op, ast.Not)
         tt = t.operand if negated else t
-        plain, logged = (ie.body, ie.orelse) if negated else (ie.orelse, ie.body)
+        plain, logged = (e_body, e_orelse) if negated else (e_orelse, e_body)
         if dotted(tt) == "self._logly":
+            ok = False
             conv = alg.ToIR(attr=lambda s: {"self._diff": sym("rawd"), "self.value": v, "self._value": v}.get(s))
             try:
                 ok = alg.equal(conv(plain), sym("rawd")) and alg.equal(conv(logged), mul(sym("rawd"), v))
@@ -839,11 +847,11 @@ def _check_nonflat_combination(chk, jm, f):
 
 
 def run(chk):
-    rule_r1(chk)
-    rule_r2(chk)
-    rule_r3(chk)
-    rule_r4(chk)
-    rule_r5(chk)
+    chk.guard(rule_r1, chk)
+    chk.guard(rule_r2, chk)
+    chk.guard(rule_r3, chk)
+    chk.guard(rule_r4, chk)
+    chk.guard(rule_r5, chk)
     chk.assumptions = [
         "user-supplied context functions are differentiated by the finite-difference wrapper (R4), not by rules",
         "placement of individual cells for a given model depends on run-time maps; only the order/offset algebra is decided",
